@@ -147,6 +147,14 @@ func (s *segment) setupIndex() (err error) {
 		return err
 	}
 	lastEntry, err := s.Index.InitializePosition()
+	if err == nil && !s.indexCoversLog(lastEntry) {
+		// The index does not end where the log file ends. This happens when
+		// the process died between writing messages to the log and writing
+		// their index entries, or between the two renames of a segment
+		// replacement. Trusting such an index would hand out offsets that are
+		// already in the log file, so rebuild it from the log instead.
+		err = errIndexCorrupt
+	}
 	if err != nil {
 		if err == errIndexCorrupt {
 			// Index is corrupt, attempt to rebuild from log file
@@ -175,6 +183,16 @@ func (s *segment) setupIndex() (err error) {
 		s.firstWriteTime = firstEntry.Timestamp
 	}
 	return nil
+}
+
+// indexCoversLog reports whether the last index entry ends exactly at the end
+// of the log file (or, for an empty index, whether the log file is empty).
+func (s *segment) indexCoversLog(lastEntry *entry) bool {
+	end := int64(0)
+	if lastEntry != nil {
+		end = lastEntry.Position + int64(lastEntry.Size)
+	}
+	return end == s.position
 }
 
 // rebuildIndex rebuilds the index by scanning the log file.
@@ -209,6 +227,10 @@ func (s *segment) rebuildIndex() error {
 
 	// If log file is empty, we're done
 	if s.position == 0 {
+		// Make the whole (empty) index readable for InitializePosition().
+		s.Index.mu.Lock()
+		s.Index.position = s.Index.size
+		s.Index.mu.Unlock()
 		return nil
 	}
 
@@ -262,6 +284,15 @@ func (s *segment) rebuildIndex() error {
 		}
 
 		pos += msgSetHeaderLen + int64(size)
+	}
+
+	// Drop a trailing partial message, if any, so that later appends do not
+	// land behind bytes no reader can parse.
+	if pos < s.position {
+		if err := s.log.Truncate(pos); err != nil {
+			return errors.Wrap(err, "failed to truncate partial message during index rebuild")
+		}
+		s.position = pos
 	}
 
 	// After rebuilding, set position to file size so InitializePosition() can
